@@ -53,7 +53,7 @@ def build(U, arities=range(2, 13)):
         im = U.impl('expanded', "TypedNode<'i, R> for Seq%d<" % n).drop_attrs()
         im.keep_methods(['try_check_partial_with'])
         tn = ', '.join('T%d' % k for k in range(n))
-        im.prepend_in_block("    open spec fn sem(c: Ctx<'i>, pos: nat, st: Seq<Span<'i>>) -> Res<'i> { sem_seq%d::<R, %s, Skip>(c, SKIP as nat, pos, st) }" % (n, tn))
+        im.prepend_in_block(P.semdef("sem_seq%d::<R, %s, Skip>(c, SKIP as nat, pos, st)" % (n, tn)))
         im.attr('    #[verifier::loop_isolation(false)]', fname='try_check_partial_with')
         im.body_start("        let ghost input0 = input;", fname='try_check_partial_with')
         for j in range(1, n):
